@@ -899,6 +899,8 @@ def plan_C12(ctx):
         for lst in exh[:ctx.q(4, 40)]:
             hosts.append(gen.concretize(lst, gen.Ctr(), []))
         hosts += gen.sampled(rng, ctx.q(3, 60), 8)
+        # hosts that carry a known-defect shape are C01's subject, not C12's
+        hosts = [h for h in hosts if not (gen.tags_of(h) & {"break-in-yielding-switch-after-yield", "continue+yielding-post"})]
         n = 0
         for name, inj in gen.c12_injections():
             for hi, host in enumerate(hosts if not name.startswith("ctl_") else hosts[:4]):
